@@ -1163,7 +1163,7 @@ func missingList(m *Model) string {
 // nativeMath evaluates pure math functions on numeric arguments.
 func (it *k4interp) nativeMath(fr *k4frame, x *ssa.Call, name string) (k4val, bool, error) {
 	switch name {
-	case "math.Sqrt", "math.Abs", "math.IsNaN", "math.Max", "math.Min", "math.IsInf", "math.Floor", "math.Ceil", "math.Round", "math.Pow10", "math.Inf":
+	case "math.Sqrt", "math.Abs", "math.IsNaN", "math.Max", "math.Min", "math.IsInf", "math.Floor", "math.Ceil", "math.Round", "math.Pow10", "math.Inf", "math.Hypot":
 	default:
 		return k4val{}, false, nil
 	}
@@ -1183,6 +1183,10 @@ func (it *k4interp) nativeMath(fr *k4frame, x *ssa.Call, name string) (k4val, bo
 		return k4val{kind: 2, f: math.Pow10(int(fs[0]))}, true, nil
 	case "math.Inf":
 		return k4val{kind: 2, f: math.Inf(int(fs[0]))}, true, nil
+	case "math.Hypot":
+		if len(fs) == 2 {
+			return k4val{kind: 2, f: math.Hypot(fs[0], fs[1])}, true, nil
+		}
 	case "math.Sqrt":
 		return k4val{kind: 2, f: math.Sqrt(fs[0])}, true, nil
 	case "math.Abs":
